@@ -105,6 +105,24 @@ static void do_grammar(std::istringstream &in, std::ostream &o) {
   dump_conflicts(o, res);
   o << ", ";
   dump_tables(o, p, [](const IntParser::Action &c) -> int { return c.action ? c.action(std::vector<int>{}) - 1 : -1; });
+  // the real Grammar::first on every string of at most two symbols of the (augmented) grammar
+  {
+    std::vector<Grammar::Symbol> syms;
+    for (auto &kv : p.G.first_sets) if (kv.first.t != Grammar::Symbol::EPSILON) syms.push_back(kv.first);
+    o << ", \"first_strings\": [";
+    bool f = true;
+    auto one = [&](std::vector<Grammar::Symbol> str) {
+      auto r = p.G.first(str);
+      o << (f ? "" : ", ") << "{\"string\": ["; f = false;
+      for (size_t i = 0; i < str.size(); i++) o << (i ? ", " : "") << sym_json(str[i]);
+      o << "], \"first\": [";
+      bool g = true; for (auto &x : r) { o << (g ? "" : ", ") << sym_json(x); g = false; }
+      o << "]}";
+    };
+    one({});
+    for (auto &a : syms) { one({a}); for (auto &b : syms) one({a, b}); }
+    o << "]";
+  }
   std::string tok;
   if (in >> tok && tok == "#") {
     std::vector<int> w; int x; while (in >> x) w.push_back(x);
